@@ -465,13 +465,13 @@ theorem translated_methods :
      "Mailbox.add_message", "Mailbox.close",
      "AppNamespace._summarize_nameplate_and_store", "AppNamespace._summarize_mailbox_and_store", "AppNamespace._add_mailbox",
      "AppNamespace.open_mailbox", "AppNamespace.claim_nameplate", "AppNamespace.release_nameplate",
-     "AppNamespace.allocate_nameplate", "AppNamespace.log_client_version", "Server.dump_stats"].all
+     "AppNamespace.allocate_nameplate", "AppNamespace.log_client_version", "Server.dump_stats", "Server.get_all_apps", "Server.prune_all_apps"].all
       (fun n => (GenSrv.table.lookup n).isSome) = true := by decide
 
-/-- what the translated bodies call: translated methods, the two summary functions (translate_summ.py, Tie/SrvSumm.lean), or the two primitives of Tie/SrvTop.lean -/
+/-- what the translated bodies call: translated methods, the two summary functions (translate_summ.py, Tie/SrvSumm.lean), the two primitives of Tie/SrvTop.lean, or `AppNamespace.prune` (Tie/SrvSweep.lean) -/
 theorem calls_resolved : (GenSrv.table.flatMap (fun m => XS.callsL m.2.body)).all
     (fun c => c ∈ GenSrv.table.map (·.1) ∨ c = "AppNamespace._summarize_nameplate_usage"
       ∨ c = "AppNamespace._summarize_mailbox" ∨ c = "AppNamespace._find_available_nameplate_id"
-      ∨ c = "Mailbox.broadcast_message") = true := by decide
+      ∨ c = "Mailbox.broadcast_message" ∨ c = "AppNamespace.prune") = true := by decide
 
 end Wormhole.PySrv
